@@ -302,7 +302,7 @@ func makePlan(base uint64, tier string, idx int) *lPlan {
 		nOther = r.pick(1, 2, 3)
 	}
 	for i := 0; i < nOther; i++ {
-		p.Addrs = append(p.Addrs, r.str("192.0.2.1", "192.0.2.7", "198.51.100.3", "[2001:db8::9]"))
+		p.Addrs = append(p.Addrs, r.str("192.0.2.1", "192.0.2.7", "198.51.100.3", "[2001:db8::9]", "[2001:db8::9]", "[2001:db9:1::7]", "[2001:db8:0:1::7]"))
 	}
 	scale := 1
 	if tier == "thorough" {
